@@ -473,6 +473,10 @@ def check(ctx):
         is_call_to(pe[0].args[0], ".flatten") and \
         pe[0].args[1] in (T("slice", tm.NONE, const(-4), tm.NONE),
                           T("slice", tm.NONE, const(12), tm.NONE))
+    from .c07 import _kitti_rows
+    tv = _kitti_rows(d, tm.attr(tm.param("traj"), "poses_se3"))
+    if tv is not None:
+        ok = tv[0]
     ctx.ob("C06.5", rk.func, ok,
            "KITTI: writer emits entries 0..11 of the row-major matrix, the "
            "reader places column 4i+j at (i, j): identity on the 3x4 block"
